@@ -16,6 +16,8 @@ conversion_fails = z3.Function("voxel_mesh_conversion_fails", z3.RealSort(), z3.
 
 
 def register(reg):
+    register_maxdist(reg)
+
     def setup(I, env):
         eng = I.eng
         MeshVolume = repo_class("scenic.core.regions:MeshVolumeRegion")
@@ -138,3 +140,94 @@ def replay_prune_containment(inputs, clause):
     finally:
         regions.VoxelRegion.mesh = orig
     return None
+
+
+def register_maxdist(reg):
+    """maxDistanceBetween: the returned value is the tightest of the distance bounds that actually apply --
+    a visibility requirement bounds the distance by the VIEWER's visibility bound towards the seen object."""
+    import z3
+
+    from pyvc.values import Infinity, compare, sv_ite
+
+    vb = z3.Function("visibilityBound", z3.IntSort(), z3.IntSort(), z3.RealSort())
+
+    def setup(I, env):
+        eng = I.eng
+        objs = []
+        for k, nm in enumerate(("obj", "target", "third")):
+            o = PObj("Object", tag=nm)
+            o.k = k
+            o.fields.update(requireVisible=eng.fresh_bool(f"{nm}.requireVisible"), _observingEntity=None, _relations=())
+            objs.append(o)
+        obj, target, third = objs
+        ego = [obj, target, third, None][eng.choose(4, "ego?")]
+        if eng.choose(2, "obj must be visible from target?") == 1:
+            obj.fields["_observingEntity"] = target
+        if eng.choose(2, "target must be visible from obj?") == 1:
+            target.fields["_observingEntity"] = obj
+        DR = repo_class("scenic.syntax.relations:DistanceRelation")
+        rels = []
+        nrel = eng.choose(3, "distance relations")
+        uppers = []
+        for j in range(nrel):
+            r = PObj(DR, tag=f"rel{j}")
+            u = eng.fresh_real(f"rel{j}.upper")
+            eng.assume(compare(">=", u, 0))
+            r.fields.update(target=target if j == 0 else third, lower=0, upper=u)
+            if j == 0:
+                uppers.append(u)
+            rels.append(r)
+        obj.fields["_relations"] = tuple(rels)
+        scenario = PObj("Scenario", tag="scenario")
+        scenario.fields["egoObject"] = ego
+        env.vars.update(scenario=scenario, obj=obj, target=target, _ego=ego, _uppers=uppers)
+
+        def vbound(I2, a, b):
+            v = SV(vb(a.k, b.k), True)
+            eng.assume(compare(">=", v, 0))
+            return v
+
+        reg.models[f"{P}:visibilityBound"] = vbound
+
+    def post(I, env, outcome):
+        eng = I.eng
+        name = "pruning.maxDistanceBetween"
+        if outcome[0] != "return":
+            return
+        obj, target, ego = env.vars["obj"], env.vars["target"], env.vars["_ego"]
+        res = outcome[1]
+        V = lambda a, b: SV(vb(a.k, b.k), True)
+        applicable = []
+        if obj is ego:
+            applicable.append((target.fields["requireVisible"], V(obj, target)))  # ego must see target
+        if target is ego:
+            applicable.append((obj.fields["requireVisible"], V(target, obj)))  # ego must see obj
+        if obj.fields["_observingEntity"] is target:
+            applicable.append((True, V(target, obj)))  # target must see obj
+        if target.fields["_observingEntity"] is obj:
+            applicable.append((True, V(obj, target)))  # obj must see target
+        for u in env.vars["_uppers"]:
+            applicable.append((True, u))
+        # soundness: the result never exceeds ... and never undercuts: it is below-or-equal every applicable bound
+        # and equal to one of them (or infinite when none applies)
+        finite = not isinstance(res, Infinity)
+        conds = []
+        for c, b in applicable:
+            if finite:
+                eng.check(f"{name}#ensures.result_at_most_every_applicable_bound", z3.Implies(tobool(c) if not isinstance(c, bool) else z3.BoolVal(c), tobool(compare("<=", res, b))))
+            conds.append((c, b))
+        if finite:
+            eng.check(f"{name}#ensures.result_is_one_of_the_applicable_bounds", z3.Or(*[z3.And(tobool(c) if not isinstance(c, bool) else z3.BoolVal(c), tobool(compare("==", res, b))) for c, b in conds]) if conds else z3.BoolVal(False))
+        else:
+            eng.check(f"{name}#ensures.infinite_only_if_no_bound_applies", z3.And(*[z3.Not(tobool(c) if not isinstance(c, bool) else z3.BoolVal(c)) for c, b in conds]) if conds else z3.BoolVal(True))
+
+    reg.add(
+        C.Contract(
+            f"{P}:maxDistanceBetween",
+            params=dict(scenario=C.Const(None), obj=C.Const(None), target=C.Const(None)),
+            setup=setup,
+            post=post,
+            properties=("C08",),
+        )
+    )
+    reg.trust("visibilityBound (in maxDistanceBetween)", "abstract non-negative bound vb(viewer, seen) on the distance at which `viewer` can see `seen`")
